@@ -244,6 +244,16 @@ register_b09(
 )
 
 
+register_b09(
+    "C15", ["CocoVerif.Props.C15"], OB.c15, OB.c15_classify,
+    "every case of the transpiler suite: generated programs over all statement kinds, the bundled examples, the unit-test "
+    "inputs, and the malformed stream (token deletion / duplication / swap, extreme literals such as 1E, ., +-1, &H, ((((), "
+    "under random option sets incl. procedure names my_prog, 9x, a-b, ecb_cls and the empty name; "
+    "a case is non-trivial when the text is non-empty; distinct = distinct request",
+    assumptions=["documented refusals: ParseError / IncompleteParseError (grammar), ParseError (undefined line, duplicate handler), "
+                 "LineNumberTooLargeException, pydantic ValidationError"],
+)
+
 import suite_lib  # noqa: E402
 
 PROPS["C20"] = {
